@@ -1636,9 +1636,12 @@ func (pc *PartitionContext) removeAllocation(release *si.AllocationRelease) ([]*
 		metrics.GetQueueMetrics(queue.GetQueuePath()).AddReleasedContainers(allocReleases)
 	}
 
-	// if the termination type is TIMEOUT/PREEMPTED_BY_SCHEDULER, we don't notify the shim,
-	// because the release that is processed now is a confirmation returned by the shim to the core
-	if release.TerminationType == si.TerminationType_TIMEOUT || release.TerminationType == si.TerminationType_PREEMPTED_BY_SCHEDULER {
+	// if the termination type is TIMEOUT/PREEMPTED_BY_SCHEDULER/PLACEHOLDER_REPLACED, we don't notify the shim,
+	// because the release that is processed now is a confirmation returned by the shim to the core. A replacement
+	// that was reversed before it was confirmed (node removal) is removed as a normal allocation: the shim has
+	// released it already.
+	if release.TerminationType == si.TerminationType_TIMEOUT || release.TerminationType == si.TerminationType_PREEMPTED_BY_SCHEDULER ||
+		release.TerminationType == si.TerminationType_PLACEHOLDER_REPLACED {
 		released = nil
 	}
 
